@@ -675,3 +675,112 @@ pub fn drop_sweep(prop: &'static str) -> BigRuns {
     });
     res.into_inner().unwrap()
 }
+
+// ------------------------------------------------------------------ limit sweep
+/// Limited concurrent calls on "two brooms": a hub `a` with `p` successors, and
+/// next to it a chain of `k + 1` functions whose last one has `q` successors.  The
+/// hub is kept in flight while the chain is completed link by link; then `j` of the
+/// `q` chain-end successors are completed, then the hub, then the default policy
+/// finishes.  At that moment functions of generation 1 (the hub's successors) and
+/// of generation `k + 1` are waiting for a slot together - more waiting functions,
+/// and from generations further apart, than a breadth-first walk ever holds.
+/// Forward and (mirrored graph) reverse, limits 2..=4, the six limit-taking APIs.
+pub fn limit_sweep(prop: &'static str) -> BigRuns {
+    use crate::gen::{Api, Strat};
+    use crate::model::{Kind, TestFn};
+    use std::sync::Mutex;
+    let res: Mutex<BigRuns> = Mutex::new(BigRuns { runs: 0, max_n: 0, violation: None, samples: vec![], hashes: vec![] });
+    let shapes = [Shape::ForEach, Shape::ForEachMut, Shape::TryForEach, Shape::TryForEachMut, Shape::TryControl, Shape::TryControlMut];
+    std::thread::scope(|sc| {
+        for (si, shape) in shapes.into_iter().enumerate() {
+            for rev in [false, true] {
+                let res = &res;
+                sc.spawn(move || {
+                    for p in [3usize, 5, 9] {
+                        for q in [5usize, 8, 14] {
+                            for k in 1..=4usize {
+                                // ids: hub 0, its successors 1..=p, chain p+1..=p+1+k, chain-end successors after
+                                let c0 = p + 1;
+                                let ck = c0 + k;
+                                let n = ck + 1 + q;
+                                let fns: Vec<TestFn> = (0..n).map(|id| TestFn { id, reads: vec![], writes: vec![] }).collect();
+                                let mut e: Vec<(usize, usize)> = (1..=p).map(|h| (0, h)).collect();
+                                e.extend((c0..ck).map(|c| (c, c + 1)));
+                                e.extend((ck + 1..n).map(|d| (ck, d)));
+                                let edges: Vec<(usize, usize, Kind)> = e
+                                    .into_iter()
+                                    .enumerate()
+                                    .map(|(i, (a, b))| {
+                                        let kind = if i % 3 == 2 { Kind::Contains } else { Kind::Logic };
+                                        if rev { (b, a, kind) } else { (a, b, kind) }
+                                    })
+                                    .collect();
+                                let spec = GraphSpec { fns, edges, batches: vec![] };
+                                let g0 = crate::model::build_graph(&spec);
+                                let facts = crate::model::GraphFacts::new(&spec, &g0);
+                                for limit in 2..=4usize {
+                                    let cfg = RunCfg {
+                                        api: Api { shape, with: rev || (p + q + k + limit + si) % 2 == 0 },
+                                        rev,
+                                        limit: Some(limit),
+                                        strat: Strat::NonInterruptible,
+                                        include: true,
+                                        failing: vec![],
+                                        yields: vec![0; n],
+                                        abort_after: None,
+                                        instant: vec![],
+                                        coop: false,
+                                        drop_sender: false,
+                                        pre_interrupted: 0,
+                                        on_clone: false,
+                                        unwind: vec![],
+                                        rev_again: 0,
+                                        opts_order: 0,
+                                    };
+                                    for j in 0..=q.min(limit + 3) {
+                                        // a completion takes up to three polls to have its full effect
+                                        // (the end is seen, the successors are queued, the next one starts)
+                                        let mut acts: Vec<Act> = vec![Act::Poll; 3];
+                                        for c in c0..=ck {
+                                            acts.push(Act::Complete(c));
+                                            acts.extend([Act::Poll; 3]);
+                                        }
+                                        // which chain-end successors hold the slots depends on the order in
+                                        // which the library queued them (first or last declared first): both
+                                        // are named, the one that is not in flight is skipped by the replay
+                                        for i in 0..j {
+                                            acts.push(Act::Complete(ck + 1 + i));
+                                            acts.push(Act::Complete(n - 1 - i));
+                                            acts.extend([Act::Poll; 3]);
+                                        }
+                                        acts.push(Act::Complete(0));
+                                        acts.extend([Act::Poll; 3]);
+                                        let mut g = g0.clone();
+                                        let r = crate::cases::run_on(&mut g, facts.clone(), &cfg, Schedule::Replay(&acts));
+                                        let viol = r.violations.iter().find(|v| v.prop == prop).cloned();
+                                        let mut out = res.lock().unwrap();
+                                        out.runs += 1;
+                                        out.max_n = out.max_n.max(n);
+                                        out.hashes.push(hash_of(&(si, rev, p, q, k, limit, j)));
+                                        if out.samples.len() < 3 && j == 1 {
+                                            out.samples.push(serde_json::json!({"api": format!("{:?}", cfg.api), "rev": rev, "hub_successors": p, "chain_links": k + 1, "chain_end_successors": q, "limit": limit, "chain_end_successors_completed_before_the_hub": j, "trace_len": r.trace.len()}));
+                                        }
+                                        if out.violation.is_none() {
+                                            if let Some(mut v) = viol {
+                                                v.msg = format!("two brooms (hub with {p} successors; chain of {} ending in {q} successors; {}), limit {limit}, hub completed after {j} chain-end successors: {}", k + 1, if rev { "mirrored, reverse" } else { "forward" }, v.msg);
+                                                let case = SingleCase { spec: spec.clone(), cfg: cfg.clone(), acts: r.acts.clone(), pre: None };
+                                                out.violation = Some((v, case));
+                                                return;
+                                            }
+                                        }
+                                    }
+                                }
+                            }
+                        }
+                    }
+                });
+            }
+        }
+    });
+    res.into_inner().unwrap()
+}
